@@ -102,6 +102,28 @@ impl Gen {
         }
     }
 
+    /// every signer registered for the epoch of the message being signed submits its own signature
+    pub async fn sign_all_current(&mut self, auth: bool) -> usize {
+        let Some(ent) = self.signing_entity() else { return 0 };
+        let ent_epoch = self.w.entities[ent].get_epoch_when_signed_entity_type_is_signed().0;
+        let regs = self.w.regs.get(&(ent_epoch - 1)).cloned().unwrap_or_default();
+        let mut n = 0;
+        for p in regs {
+            if self.sign_and_submit(ent, p, ent_epoch - 1, auth, ent).await.as_deref() == Some("registered") {
+                n += 1;
+            }
+        }
+        n
+    }
+
+    /// a productive step: sign the current message (if any) and tick
+    pub async fn drive(&mut self) {
+        if self.w.tester.runtime.state_label() == "signing" {
+            self.sign_all_current(false).await;
+        }
+        self.w.tick().await;
+    }
+
     /// one macro step of the random walk
     pub async fn step(&mut self, rng: &mut Rng) {
         let mut r = rng.below(100);
@@ -151,6 +173,11 @@ impl Gen {
                 let late_phase = self.w.events.len() * 2 > self.cfg.events;
                 let unhealthy = self.cfg.jumps && late_phase && rng.chance(1, 2);
                 if !unhealthy {
+                    if !self.w.last_dump.certs.iter().any(|c| c.epoch == epoch) {
+                        // an epoch without a certificate is an epoch gap: work on the current round first
+                        self.drive().await;
+                        return;
+                    }
                     if self.w.regs.get(&(epoch + 1)).map(|v| v.is_empty()).unwrap_or(true) || rng.chance(1, 2) {
                         let all = !self.cfg.sparse_regs || rng.chance(1, 3);
                         self.register_some(rng, all).await;
